@@ -1014,6 +1014,20 @@ class DottedTheory(ControlTheory):
             return out
         return super().call_method(st, fr, recv, name, pos, kws, rest_kw, node)
 
+    def unpack_assign(self, st, fr, target, v):
+        # `first, *rest = path.split(".")`
+        if isinstance(v, PartsV) and len(target.elts) == 2 and isinstance(target.elts[0], _ast.Name) and isinstance(target.elts[1], _ast.Starred) and isinstance(target.elts[1].value, _ast.Name):
+            out = []
+            for s, b in self.ip.branch(st, NPARTS(v.path_t) - v.off > 0, "unpack"):
+                if b:
+                    s.loc[target.elts[0].id] = StrV(PART(v.path_t, v.off))
+                    s.loc[target.elts[1].value.id] = PartsV(v.path_t, v.off + 1)
+                    out.append((s, NORMAL))
+                else:
+                    out.append((s, Exit(Exit.RAISE, ExcV("ValueError", []))))
+            return out
+        return super().unpack_assign(st, fr, target, v)
+
     def iter_of(self, st, fr, v, node):
         from pyvc.theory import Iter
 
@@ -1096,6 +1110,9 @@ def u_resolve_dotted_path(ip: Interp, th: DottedTheory):
         if (isinstance(n, _ast.Assign) and len(n.targets) == 1 and isinstance(n.targets[0], _ast.Name) and isinstance(n.value, _ast.Call)
                 and isinstance(n.value.func, _ast.Attribute) and n.value.func.attr == "pop" and isinstance(n.value.func.value, _ast.Name)):
             acc_name, parts_name = n.targets[0].id, n.value.func.value.id
+        if (isinstance(n, _ast.Assign) and len(n.targets) == 1 and isinstance(n.targets[0], _ast.Tuple) and len(n.targets[0].elts) == 2 and isinstance(n.targets[0].elts[0], _ast.Name)
+                and isinstance(n.targets[0].elts[1], _ast.Starred) and isinstance(n.targets[0].elts[1].value, _ast.Name)):
+            acc_name, parts_name = n.targets[0].elts[0].id, n.targets[0].elts[1].value.id  # `<acc>, *<parts> = path.split(".")`
     if acc_name is None:
         raise Unsupported("resolve_dotted_path: the statement `<name> = <components>.pop(0)` was not found (anchor of the loop invariant)")
 
